@@ -15,6 +15,19 @@ extending) in families of environments made with Environment.overlay(), each
 member with its own interception configuration; every render through a member
 must produce that member's expected hook log on that member's hook, whatever
 its relatives loaded (and cached) before.
+
+Third part: compile ROUTES.  The same generated programs reach the
+intercepting sandbox along every documented way to turn a template into code:
+source text through from_string (first part) or compile() + Template.from_code;
+an AST from Environment.parse() of the SAME environment / of an overlay of it;
+an AST parsed by ANOTHER environment (ordinary Environment - optimizer on, off,
+an overlay -, a SandboxedEnvironment that intercepts nothing, a recording
+sandbox that intercepts exactly the other operators) handed to from_string(ast)
+or compile(ast [, name, filename]) + from_code, with and without
+Node.set_environment; and compile_expression for a single expression (the
+VALUE is compared).  Every route must give the reference's hook event sequence
+and output - i.e. the same as every other route - and the hook of an
+environment that only parsed the source must stay silent.
 """
 from __future__ import annotations
 
@@ -24,7 +37,9 @@ from vt.gen import c20_gen as G
 
 PID = "C20"
 LEVEL = "exploration"
-TECHNIQUE = "recording+perturbing interception hooks vs reference interpreter over generated expression programs, per operator subset"
+TECHNIQUE = ("recording+perturbing interception hooks vs reference interpreter over generated expression programs, "
+             "per operator subset, per overlay family and per compile route (text, own AST, AST parsed by another "
+             "environment, compile + from_code, compile_expression)")
 RULE = ("case = (subset of the 9 interceptable operators, generated program, sync/async); "
         "programs are random statement lists (output, set, if, for with/without filter, with, "
         "macro default + call) over fully parenthesised expression trees (constants, variables, "
@@ -37,8 +52,17 @@ RULE = ("case = (subset of the 9 interceptable operators, generated program, syn
         "of an overlay] x configuration of each member [none / the subset / full / random; set on the "
         "class, on the parent instance before loading, on the overlay instance after overlay()] x "
         "loader form [direct, include, extends] x cache size x generated program x sync/async), "
-        "3 per (subset, round); counted as distinct when the members expect different hook logs")
-LEVEL_TEXT = ("overlay families: every member's render of a loader template matches the member's own "
+        "3 per (subset, round); counted as distinct when the members expect different hook logs; "
+        "route cases = (subset, generated program, sync/async, compile route [text/compile+from_code, own "
+        "AST through from_string or compile+from_code, AST of an overlay of the environment, AST parsed by an "
+        "ordinary Environment (optimized / unoptimized / overlay) or by a SandboxedEnvironment without "
+        "interception or by a recording sandbox intercepting the complementary operators, each through "
+        "from_string(ast) and compile(ast)+from_code (also with name and filename), foreign AST after "
+        "set_environment, compile_expression on a generated expression]): every third program of every "
+        "(subset, round) is compiled a second time along one route, rotating over the 15 routes")
+LEVEL_TEXT = ("compile routes: the hook log and output (compile_expression: value) equal the reference on "
+              "every executed (subset, program, route) triple, and the parsing environment's hook is never called; "
+              "overlay families: every member's render of a loader template matches the member's own "
               "configuration on the member's own hook; "
               "hook log == expected event sequence and output == expected perturbed output on "
               "every executed (subset, program) pair; bounded to the generated expression/statement "
@@ -48,7 +72,18 @@ ASSUMPTIONS = [
     "the loop-filter cases put arithmetic either in the filter or in the body (not both), so lazy vs eager filtering order is not constrained",
     "macro defaults are exercised with one call directly after the definition",
     "overlay families: an environment's interception configuration is fixed before that environment loads its first template (class attribute, or instance attribute set on the parent before any load / on the overlay directly after overlay()); re-configuring an environment that already holds compiled templates is not generated",
+    "compile routes: Environment.from_string and Environment.compile accept a nodes.Template (their signatures and docstrings: 'Compile a node or template source code'), Environment.parse is the documented way to obtain one (low-level API, meta API), and Template.from_code is documented; an AST is compiled once (a fresh parse per route); the environment that compiles and renders is the one whose interception configuration counts, whichever environment parsed the source; compile_expression is exercised on sync environments only",
     "programs whose plain-Python evaluation raises (ZeroDivisionError, TypeError), exceeds 1e12, yields complex numbers, or sums floats with |sum (builtin sum compensates rounding) are discarded",
+]
+#: compile routes other than source text through from_string (table ROUTES below)
+ROUTE_NAMES = [
+    "text/compile+from_code", "own-ast/from_string", "own-ast/compile+from_code",
+    "own-overlay-ast/from_string", "plain-env-ast/from_string", "plain-env-ast/compile+from_code",
+    "plain-env-ast/compile-named+from_code", "plain-unoptimized-env-ast/from_string",
+    "plain-overlay-env-ast/from_string", "sandbox-without-interception-ast/from_string",
+    "sandbox-without-interception-ast/compile+from_code", "other-interception-ast/from_string",
+    "other-interception-ast/compile+from_code", "plain-env-ast+set_environment/from_string",
+    "compile_expression",
 ]
 NSHARDS = {"quick": 16, "thorough": 16}
 BUDGET_S = {"quick": 12, "thorough": 240}
@@ -57,12 +92,19 @@ FLOORS = {
               "counters": {"hook_events": 6000, "subsets": 64, "events_compared": 6000,
                            "unintercepted_applications": 6000, "async_renders": 400,
                            "overlay_cases": 250, "overlay_renders": 900,
-                           "overlay_discriminating_cases": 180, "overlay_events_compared": 1500}},
+                           "overlay_discriminating_cases": 180, "overlay_events_compared": 1500,
+                           "route_cases": 250, "route_events_compared": 500,
+                           "route_foreign_ast_cases": 150, "route_foreign_ast_events_compared": 350,
+                           **{"route_cases:" + r: 12 for r in ROUTE_NAMES}}},
     "thorough": {"evaluations": 80000, "distinct": 60000,
                  "counters": {"hook_events": 200000, "subsets": 512, "events_compared": 200000,
                               "unintercepted_applications": 200000, "async_renders": 12000,
                               "overlay_cases": 10000, "overlay_renders": 36000,
-                              "overlay_discriminating_cases": 7000, "overlay_events_compared": 50000}},
+                              "overlay_discriminating_cases": 7000, "overlay_events_compared": 50000,
+                              "route_cases": 6000, "route_events_compared": 12000,
+                              "route_foreign_ast_cases": 3700,
+                              "route_foreign_ast_events_compared": 8000,
+                              **{"route_cases:" + r: 300 for r in ROUTE_NAMES}}},
 }
 
 ALL_OPS = [("b", o) for o in G.BINOPS] + [("u", o) for o in G.UNOPS]
@@ -118,9 +160,135 @@ def make_env(binops, unops, is_async):
     return env
 
 
+# ----------------------------------------------------------- compile routes
+# Third part: the SAME program reaches the intercepting sandbox along every
+# documented compile route; the hook log and the output must be the reference's
+# whatever the route.  parser environment -> how the AST / code gets compiled.
+_foreign_envs = {}
+
+
+def foreign_env(kind, env, binops, unops, is_async):
+    """The environment that PARSES the source for the foreign-AST routes."""
+    import jinja2
+    from jinja2.sandbox import SandboxedEnvironment
+
+    if kind == "self":
+        return env
+    if kind == "self-overlay":
+        return env.overlay()
+    if kind == "other-interception":
+        # a recording sandbox that intercepts exactly the operators `env` does not
+        other = make_env([o for o in G.BINOPS if o not in binops],
+                         [o for o in G.UNOPS if o not in unops], is_async)
+        other.vt_log = []
+        return other
+    key = (kind, is_async)
+    if key not in _foreign_envs:
+        if kind == "plain":
+            e = jinja2.Environment(enable_async=is_async)
+        elif kind == "plain-unoptimized":
+            e = jinja2.Environment(enable_async=is_async, optimized=False)
+        elif kind == "plain-overlay":
+            e = jinja2.Environment(enable_async=is_async).overlay()
+        elif kind == "sandbox-without-interception":
+            e = SandboxedEnvironment(enable_async=is_async)
+        else:
+            raise AssertionError(kind)
+        _foreign_envs[key] = e
+    return _foreign_envs[key]
+
+
+def _from_code(env, code):
+    return env.template_class.from_code(env, code, env.make_globals(None))
+
+
+#: route -> (parser environment kind or None for source text, builder(env, text or AST) -> Template)
+ROUTES = {
+    "text/from_string": (None, lambda env, x: env.from_string(x)),
+    "text/compile+from_code": (None, lambda env, x: _from_code(env, env.compile(x))),
+    "own-ast/from_string": ("self", lambda env, x: env.from_string(x)),
+    "own-ast/compile+from_code": ("self", lambda env, x: _from_code(env, env.compile(x))),
+    "own-overlay-ast/from_string": ("self-overlay", lambda env, x: env.from_string(x)),
+    "plain-env-ast/from_string": ("plain", lambda env, x: env.from_string(x)),
+    "plain-env-ast/compile+from_code": ("plain", lambda env, x: _from_code(env, env.compile(x))),
+    "plain-env-ast/compile-named+from_code":
+        ("plain", lambda env, x: _from_code(env, env.compile(x, "vt_name", "vt_name.html"))),
+    "plain-unoptimized-env-ast/from_string": ("plain-unoptimized", lambda env, x: env.from_string(x)),
+    "plain-overlay-env-ast/from_string": ("plain-overlay", lambda env, x: env.from_string(x)),
+    "sandbox-without-interception-ast/from_string":
+        ("sandbox-without-interception", lambda env, x: env.from_string(x)),
+    "sandbox-without-interception-ast/compile+from_code":
+        ("sandbox-without-interception", lambda env, x: _from_code(env, env.compile(x))),
+    "other-interception-ast/from_string": ("other-interception", lambda env, x: env.from_string(x)),
+    "other-interception-ast/compile+from_code":
+        ("other-interception", lambda env, x: _from_code(env, env.compile(x))),
+    "plain-env-ast+set_environment/from_string": ("plain", None),     # (special: rebinds the nodes first)
+    "compile_expression": (None, None),                                # (special: first output expression)
+}
+ALT_ROUTES = [r for r in ROUTES if r != "text/from_string"]
+assert ALT_ROUTES == ROUTE_NAMES
+FOREIGN_ROUTES = [r for r in ROUTES if ROUTES[r][0] not in (None, "self", "self-overlay")
+                  and "set_environment" not in r]
+
+
+def build_by_route(route, env, source, binops, unops, is_async):
+    """-> (template, parser environment or None)"""
+    pkind, builder = ROUTES[route]
+    if pkind is None:
+        return builder(env, source), None
+    penv = foreign_env(pkind, env, binops, unops, is_async)
+    ast = penv.parse(source)
+    if builder is None:
+        ast.set_environment(env)
+        return env.from_string(ast), penv
+    return builder(env, ast), penv
+
+
+def run_expression_route(ctx, case, count=True):
+    """compile_expression: the first output expression of the program evaluated
+    as an expression object; hook log and VALUE against the reference."""
+    binops, unops, prog = case["binops"], case["unops"], case["prog"]
+    exprs = [s[1] for s in prog if s[0] == "out"]
+    if not exprs or prog[0][0] != "out":
+        return False
+    expr = prog[0][1]
+    ref = G.Ref(binops, unops)
+    try:
+        exp_val = ref.ev(expr, dict(G.CONTEXT))
+    except G.Discard:
+        if count:
+            ctx.count("discarded_programs")
+        return False
+    source = G.src(expr)
+    env = make_env(binops, unops, False)
+    env.vt_log = log = []
+    try:
+        val = env.compile_expression(source)(**G.CONTEXT)
+        out, err = G.tag(val), None
+    except Exception as e:
+        out, err = None, f"{type(e).__name__}: {e}"
+    if count:
+        ctx.ev()
+        ctx.count("route_cases")
+        ctx.count("route_cases:compile_expression")
+        ctx.count("route_events_compared", len(ref.log))
+        ctx.count("hook_events", len(log))
+        ctx.count("events_compared", len(ref.log))
+        ctx.count("unintercepted_applications", sum(ref.applied.values()) - len(ref.log))
+        if sum(ref.applied.values()) >= 2:
+            ctx.dist(["route", "compile_expression", binops, unops, expr])
+    case = dict(case, source=source)
+    compare(ctx, "route:compile_expression:", "compile_expression: ", log, ref.log, out,
+            G.tag(exp_val), err, binops, unops, source, case)
+    return True
+
+
 def run_case(ctx, case, count=True):
     """Returns True when the case was within the modelled fragment."""
     binops, unops, prog, is_async = case["binops"], case["unops"], case["prog"], case["async"]
+    route = case.get("route", "text/from_string")
+    if route == "compile_expression":
+        return run_expression_route(ctx, case, count)
     ref = G.Ref(binops, unops)
     try:
         exp_out = ref.run(prog, dict(G.CONTEXT))
@@ -131,6 +299,42 @@ def run_case(ctx, case, count=True):
     source = G.stmts_src(prog)
     env = make_env(binops, unops, is_async)
     env.vt_log = log = []
+    if route != "text/from_string":
+        penv = None
+        try:
+            tmpl, penv = build_by_route(route, env, source, binops, unops, is_async)
+            out = tmpl.render(**G.CONTEXT)
+            err = None
+        except Exception as e:
+            out, err = None, f"{type(e).__name__}: {e}"
+        if count:
+            ctx.ev()
+            ctx.count("route_cases")
+            ctx.count("route_cases:" + route)
+            ctx.count("route_events_compared", len(ref.log))
+            # (the same observations as on the text route: events the hook saw, events
+            # compared with the reference, applications that must NOT reach the hook)
+            ctx.count("hook_events", len(log))
+            ctx.count("events_compared", len(ref.log))
+            ctx.count("unintercepted_applications", sum(ref.applied.values()) - len(ref.log))
+            if route in FOREIGN_ROUTES:
+                ctx.count("route_foreign_ast_cases")
+                ctx.count("route_foreign_ast_events_compared", len(ref.log))
+            if is_async:
+                ctx.count("async_renders")
+                ctx.count("route_async_cases")
+            if sum(ref.applied.values()) >= 2:
+                ctx.dist(["route", route, binops, unops, prog, is_async])
+        case = dict(case, source=source)
+        who = f"compile route {route}: "
+        foreign_log = getattr(penv, "vt_log", None) if penv is not None and penv is not env else None
+        if foreign_log and foreign_log is not log:
+            ctx.violation(f"route:{route}:hook-of-parsing-environment",
+                          who + f"the hook of the environment that only parsed the source was called: "
+                          f"{foreign_log[:4]}; own log {log[:6]}; source={source}", case)
+            return True
+        compare(ctx, f"route:{route}:", who, log, ref.log, out, exp_out, err, binops, unops, source, case)
+        return True
     try:
         out = env.from_string(source).render(**G.CONTEXT)
         err = None
@@ -387,6 +591,8 @@ def run(ctx):
     sampled = 0
     osampled = 0
     orng = ctx.rng("overlay")
+    nroute = ctx.shard      # (shards start the route rotation at different places)
+    rsampled = 0
     while rounds < max_rounds:
         for mask, b, u in mine:
             for j in range(per_round):
@@ -397,6 +603,20 @@ def run(ctx):
                 if ok and sampled < 2 and ctx.shard == 0 and (b or u):
                     sampled += 1
                     ctx.sample({"binops": b, "unops": u, "source": G.stmts_src(prog)})
+                if ok and j % 3 == 1:
+                    # the same program along one of the other compile routes (rotating)
+                    nroute += 1
+                    route = ALT_ROUTES[nroute % len(ALT_ROUTES)]
+                    rcase = dict(case, route=route)
+                    if route == "compile_expression":
+                        # (an expression object evaluates ONE expression, sync only)
+                        rcase.update({"async": False,
+                                      "prog": [["out", gen.any(rng.randint(1, 4), list(G.NUM_VARS))]]})
+                    if run_case(ctx, rcase) and rsampled < 1 and ctx.shard == 2 and (b or u) \
+                            and route in FOREIGN_ROUTES:
+                        rsampled += 1
+                        ctx.sample({"binops": b, "unops": u, "route": route,
+                                    "source": G.stmts_src(prog)})
             for j in range(3):
                 ocase = overlay_case_for(orng, b, u, gen.program(), j)
                 if run_overlay_case(ctx, ocase) and osampled < 1 and ctx.shard == 1:
